@@ -126,7 +126,7 @@ def _work(args):
     return out
 
 
-def run_batch(engine, tier, base_seed, n_runs, jobs, budget_s=None, per_run_timeout=120):
+def run_batch(engine, tier, base_seed, n_runs, jobs, budget_s=None, per_run_timeout=600):
     global _ENGINE
     _ENGINE = engine
     t0 = time.time()
